@@ -129,7 +129,7 @@ func interp(expr ast.Expr, env *val.Env) *val.Val {
 func listSel(lhs, rhs *val.Val) *val.Val {
 	lst := lhs.List().V
 	idx := int(rhs.Num().V)
-	util.Assert(idx < len(lst), "out of range %d of %s", idx, lst)
+	util.Assert(idx >= 0 && idx < len(lst), "out of range %d of %s", idx, lst)
 	return lst[idx]
 }
 
